@@ -22,7 +22,7 @@
    The observed final state is mapped onto the variables of Subset.tla (instance S) and the clauses of the
    specification are evaluated on it; MinClosure and, for generated fonts, OTLSem shaping of both fonts
    are computed here from the projections.  Clauses "trace:*" mean a malformed recording (machinery).  *)
-EXTENDS OTLSem, TLC, Json, IOUtils
+EXTENDS OTLSem, TLC, Json, IOUtils, FiniteSets
 
 Input == JsonDeserialize(IOEnv.TRACE_FILE)
 Traces == Input.traces
@@ -60,10 +60,17 @@ OrderClause(t) ==
   ELSE IF LET os == SetOf(t.order) IN \E g \in 1..TF.n : t.imap[g] >= 0 /\ g \notin os THEN <<"order:index-map-has-dropped-glyph", 0>>
   ELSE None
 
+(* Root cause GlyphZeroLost (finding C07/no-notdef-glyph-zero): without notdef_glyph and without retain_gids the
+   original glyph 0 is dropped and the first retained glyph is renumbered to glyph id 0, which every cmap
+   consumer (OpenType: "glyph 0 = missing glyph"; HarfBuzz; fontTools' own cmap reader) treats as "no glyph":
+   the characters of that glyph are not present in the result.  The clause is evaluated once for all requested
+   characters and once leaving out those of the glyph renumbered to 0 to name the cause. *)
 RequestedClause(t) ==
   IF ~(S!ReqGlyphs(TF, t.req) \subseteq Ret) THEN <<"requested:glyph-not-retained", 0>>
-  ELSE IF ~S!RequestedPresentF(TF, t.req, Ret, LAMBDA g : t.imap[g] + 1, t.rcmap) THEN <<"requested:character-missing-or-mapped-to-another-glyph", 0>>
-  ELSE None
+  ELSE IF S!RequestedPresentF(TF, t.req, Ret, LAMBDA g : t.imap[g] + 1, t.rcmap, {}) THEN None
+  ELSE IF S!RequestedPresentF(TF, t.req, Ret, LAMBDA g : t.imap[g] + 1, t.rcmap, S!ZeroGlyph(t.order, t.opts))
+       THEN <<"requested:character-lost-its-glyph-was-renumbered-to-glyph-0-(notdef-dropped)", t.order[1]>>
+  ELSE <<"requested:character-missing-or-mapped-to-another-glyph", 0>>
 
 MonotoneClause(t) ==
   IF ~S!MonotoneF(Stg("requested"), Stg("cmaped"), Stg("mathed"), Stg("gsubed"), Stg("colred"), Stg("glyfed"), Stg("cffed"))
@@ -88,14 +95,25 @@ DanglingClause(t) ==
 
 RetainClause(t) == IF S!RetainGidsF(t.opts, Ret, LAMBDA g : t.imap[g] + 1) THEN None ELSE <<"retain-gids:kept-glyph-changed-id", 0>>
 
-(* HarfBuzz on both fonts: same glyphs through the subsetter's own index map, same advances and offsets *)
+(* HarfBuzz on both fonts: same glyphs through the subsetter's own index map, same advances and offsets.
+   Domain rule NoClosureEscape: without layout_closure the subsetter keeps only the rules "relevant to the
+   otherwise-specified glyph set" (subset --help), so shaping equality is claimed for the texts whose shaping in
+   the ORIGINAL font cannot leave the glyph set the layout tables were subset to (glyphs_gsubed).  That is decided
+   with an UPPER bound of what the kept features can produce from the glyphs of the text: every lookup reachable
+   from a kept feature (every lookup of the table if the font has FeatureVariations) applied as a top-level lookup,
+   iterated to the fixed point.  Observations outside the domain are not compared (and not counted). *)
+GsubT == TF.L.gsub.lookups
+UBTop(t) == IF TF.fv THEN 1..Len(GsubT) ELSE S!ReachLookups(GsubT, S!ActiveTop(TF, t.opts))
+Escapes(t, o) == ~(S!GsubLfp(GsubT, UBTop(t), S!Universe(TF), S!CmapGlyphs(TF, o.t)) \subseteq Stg("gsubed"))
+InDomain(t, o) == t.opts.closure \/ ~Escapes(t, o)
 SameGlyphs(t, o) == /\ Len(o.a) = Len(o.b)
                     /\ \A k \in 1..Len(o.a) : o.a[k][1] >= 0 /\ o.a[k][1] < Len(t.imap) /\ o.b[k][1] = t.imap[o.a[k][1] + 1]
 SamePositions(o) == \A k \in 1..Len(o.a) : \A j \in 2..5 : o.a[k][j] = o.b[k][j]
-ShapingClause(t) ==
-  LET k == FirstBad(t.shapes, LAMBDA o : SameGlyphs(t, o)) IN
+Compared(t) == {k \in 1..Len(t.shapes) : InDomain(t, t.shapes[k])}
+ShapingClause(t, cmp) ==
+  LET k == FirstIdx({k \in cmp : ~SameGlyphs(t, t.shapes[k])}) IN
   IF k # 0 THEN <<"shaping:glyphs-differ", k>>
-  ELSE LET j == FirstBad(t.shapes, SamePositions) IN
+  ELSE LET j == FirstIdx({k \in cmp : ~SamePositions(t.shapes[k])}) IN
        IF j # 0 THEN <<"shaping:advances-or-offsets-differ", j>>
        ELSE IF "res" \in DOMAIN t /\ t.opts.closure /\ ~S!ShapingPreservedF(TF, t.opts, t.res, t.order, 3)
             THEN <<"shaping:specification-shaping-of-projections-differs", 0>>
@@ -108,14 +126,19 @@ KeptClause(t) ==
       kl == FirstBad(t.kept, LAMBDA r : Exempt(t, r.g) \/ r.lsb[1] = r.lsb[2])
       ko == FirstBad(t.kept, LAMBDA r : Exempt(t, r.g) \/ \A j \in 1..Len(r.loc) : r.loc[j][1] = r.loc[j][2])
       kv == FirstBad(t.kept, LAMBDA r : \A j \in 1..Len(r.loc) : r.loc[j][3] = r.loc[j][4])
+      kc == FirstBad(t.kept, LAMBDA r : r.g \notin Stg("gsubed") \/ r.cls[1] = r.cls[2])    \* layout tables cover glyphs_gsubed
   IN IF ka # 0 THEN <<"kept:advance-width-changed", t.kept[ka].g>>
      ELSE IF kl # 0 THEN <<"kept:side-bearing-changed", t.kept[kl].g>>
      ELSE IF ko # 0 THEN <<"kept:outline-or-its-variation-changed", t.kept[ko].g>>
      ELSE IF kv # 0 THEN <<"kept:advance-variation-changed", t.kept[kv].g>>
+     ELSE IF kc # 0 THEN <<"kept:gdef-glyph-class-changed", t.kept[kc].g>>
      ELSE None
 
+(* Domain rule EmptyGlyphSet: a request that selects no glyph at all (nothing requested, no notdef_glyph, no
+   recommended glyphs) has no font as its answer (a font has at least glyph 0); the subsetter raises. *)
 Judge(t) ==
-  IF "crash" \in DOMAIN t THEN <<"subset:raised-on-a-valid-request", 0>>
+  IF "crash" \in DOMAIN t THEN (IF S!StartSet(TF, t.req, t.opts) = {} THEN <<"domain:empty-glyph-set", 0>>
+                                ELSE <<"subset:raised-on-a-valid-request", 0>>)
   ELSE IF ~WellFormed(t) THEN <<"trace:malformed", 0>>
   ELSE LET o == OrderClause(t) IN
        IF o # None THEN o
@@ -129,12 +152,14 @@ Judge(t) ==
        IF d # None THEN d
        ELSE LET g == RetainClause(t) IN
        IF g # None THEN g
-       ELSE LET s == ShapingClause(t) IN
+       ELSE LET cmp == Compared(t)
+                s == ShapingClause(t, cmp) IN
        IF s # None THEN s
-       ELSE KeptClause(t)
+       ELSE LET k == KeptClause(t) IN
+       IF k # None THEN k ELSE <<"ok", Cardinality(cmp)>>       \* accepted: number of shaping observations compared
 
 Init == tid \in 1..Len(Traces) /\ verdict = <<"pending", 0>>
 Next == verdict[1] = "pending" /\ verdict' = Judge(T) /\ UNCHANGED tid
-Report == /\ (verdict[1] = "ok") => PrintT(<<"ACC", tid>>)
+Report == /\ (verdict[1] = "ok") => PrintT(<<"ACC", tid, verdict[2]>>)
           /\ (verdict[1] \notin {"pending", "ok"}) => PrintT(<<"REJ", tid, verdict[1], verdict[2]>>)
 =============================================================================
